@@ -13,10 +13,13 @@ import (
 var c15Names = []ap.CollectionPath{ap.Outbox, ap.Inbox, ap.Liked, ap.Following, ap.Followers, ap.Likes, ap.Shares, ap.Replies}
 
 func c15Owners(r *RNG, n int) []string {
-	hosts := []string{"example.com", "example.com:8080", "sub.Example.ORG", "127.0.0.1:3000"}
-	segs := []string{"~jane", "actors", "jdoe", "inbox", "outbox", "likes", "a.b", "x-y_z", "9", "Followers", "api", "v1"}
+	hosts := []string{"example.com", "example.com:8080", "sub.Example.ORG", "127.0.0.1:3000", "shares.example.com", "myinbox"}
+	// … and segments that merely contain, start with or end in the letters of a collection name
+	segs := []string{"~jane", "actors", "jdoe", "inbox", "outbox", "likes", "a.b", "x-y_z", "9", "Followers", "api", "v1",
+		"dislikes", "unfollowing", "non-followers", "unliked", "reshares", "autoreplies", "mailinbox", "outbox-archive", "inboxes", "likes42"}
 	out := []string{"https://example.com", "https://example.com/", "http://example.com/~jane", "https://example.com/~jane/",
-		"https://example.com/inbox", "https://example.com/actors/inbox/", "https://example.com/a%2Fb", "https://example.com/caf%C3%A9/jane"}
+		"https://example.com/inbox", "https://example.com/actors/inbox/", "https://example.com/a%2Fb", "https://example.com/caf%C3%A9/jane",
+		"https://myinbox", "https://example.com/tags/dislikes", "https://example.com/users/inbox", "https://shares.example.com/u/1"}
 	for i := 0; i < n; i++ {
 		s := []string{"https", "http"}[r.Intn(2)] + "://" + r.Pick(hosts)
 		for k := r.Intn(4); k > 0; k-- {
